@@ -7,7 +7,8 @@ import os as _os
 import re as _re
 from codemodder.codetf import Change as _Change, ChangeSet as _ChangeSet, UnfixedFinding as _UnfixedFinding
 from pathlib import Path as _Path
-REG.spec_globals = {"Path": _Path, "fnmatch": _fnmatch, "cst": _cst, "os": _os, "re": _re, "Change": _Change, "ChangeSet": _ChangeSet,
+import tomlkit as _tomlkit
+REG.spec_globals = {"tomlkit": _tomlkit, "Path": _Path, "fnmatch": _fnmatch, "cst": _cst, "os": _os, "re": _re, "Change": _Change, "ChangeSet": _ChangeSet,
                     "UnfixedFinding": _UnfixedFinding, "CodeTFResult": __import__("codemodder.codetf", fromlist=["Result"]).Result,
                     "update_finding_metadata": __import__("codemodder.utils.update_finding_metadata", fromlist=["x"]).update_finding_metadata}
 
